@@ -9,6 +9,7 @@ CONSTANTS
   MaxTime = 26
   Lossy = FALSE
   KeepLater = FALSE
+  DropUntil = 1000
   Async <- NoPeers
 INVARIANT TypeOK
 INVARIANT RemoveSaysGoodbye
